@@ -164,3 +164,20 @@ Proof.
   destruct (leqb l "o"); [injection Hg as <-; discriminate|].
   destruct (leqb l "x"); [injection Hg as <-; discriminate|discriminate].
 Qed.
+
+(* ---- the evaluators these theorems are about ARE what the source says now: on every well-formed circuit each
+        evaluator regenerated from circuit.py (translator T10) equals the model (proved in
+        Proofs/CircuitAlgosGenSum.v; also stated under C02).  Re-stated here so that an edit of an evaluator in the
+        source breaks a proof obligation of THIS property. ---- *)
+Require Import Cirbo.Generated.CircuitCore Cirbo.Generated.CircuitAlgos.
+Require Cirbo.Proofs.CircuitAlgosGen Cirbo.Proofs.CircuitAlgosGenSum.
+Theorem C15_evaluators_regenerated : forall c, WF c ->
+  (forall a, gen_evaluate_full_circuit CircuitAlgosGen.size_fuel c a = evaluate_full_circuit c a) /\
+  (forall a outs,
+     gen_evaluate_circuit (eval_fuel c (match outs with Some o => o | None => outputs c end)) c a outs
+     = evaluate_circuit c a outs) /\
+  (forall a, gen_evaluate_circuit_outputs CircuitAlgosGen.outputs_fuel c a = evaluate_circuit_outputs c a) /\
+  (forall vals, gen_evaluate CircuitAlgosGen.outputs_fuel c vals = evaluate c vals) /\
+  (forall vals i, gen_evaluate_at CircuitAlgosGen.at_fuel c vals (Z.of_nat i) = evaluate_at c vals i) /\
+  gen_get_truth_table CircuitAlgosGen.outputs_fuel c = get_truth_table c.
+Proof. exact CircuitAlgosGenSum.evaluators_regenerated_wf. Qed.
